@@ -71,7 +71,7 @@ def oracle(ctx: core.Ctx, recs: list[dict[str, Any]], envs: list[dict[str, Any]]
         ctx.case(f"{k}:{a}\0{arg}", nontrivial=ok and ta is not None,
                  sample={"kind": k, "a": a, "arg": arg, "result": rec.get("text")} if ok and k != "parse" else None)
         ctx.count(f"{k}:" + ("ok" if ok else rec.get("error", "?")))
-        if rec.get("timeout") or ta is None:
+        if rec.get("timeout") or ta is None or ta == E.TIMEOUT:
             continue
         wit = dict(case)
         if not ok:
